@@ -50,7 +50,9 @@ class AbstractDenseTimeOnlineInterpreter(AbstractOnlineInterpreter, DenseTimeInt
         # (when the formula reads another field of the same variable, `out` holds the samples supplied for it, not an object)
         writes_field = self.ast.out_var_field and self.ast.out_var not in self.ast.free_vars
         if writes_field:
-            setattr(out, self.ast.out_var_field, rob)
+            # (the field may be nested: out.inner.v)
+            fields = self.ast.out_var_field.split('.')
+            setattr(operator.attrgetter('.'.join(fields[:-1]))(out) if fields[:-1] else out, fields[-1], rob)
 
         self.ast.var_object_dict = self.ast.var_object_dict.fromkeys(self.ast.var_object_dict, [])  #TODO I did not understand it.
         if writes_field:
